@@ -42,7 +42,8 @@ META = {
     ["the construction enumerates choice functions: exhausting 3*10^6 allocator events is inconclusive"], Q),
  "C07": _m("exploration",
     "one run: the same generated pair loaded into bdd-bu and bdd-td (16-bit symbols), a third of the pairs shaped so that each child position of a binary rule carries several macro-states; implemented selections (bu: up, down-rec+sim; td: down-rec, down-rec-opt, each with / without simulation, the preorder obtained by the library's own bottom-up sequence) and unimplemented ones, directly and through the CLI protocol, with churn of diagrams in between. Oracle: exact model inclusion; unimplemented => NotImplementedException.",
-    ["bdd-bu up+sim is not exercised as a verdict: the library cannot produce the upward preorder it needs (it reports NotImplementedException through the CLI path, which is checked)"], Q),
+    ["bdd-bu up+sim is not exercised as a verdict: the library cannot produce the upward preorder it needs (it reports NotImplementedException through the CLI path, which is checked)"],
+    {"quick": {"plain": 45, "san": 10}, "thorough": {"plain": 900, "san": 300}}),
  "C08": _m("exploration",
     "one run: histories of load / copy / assign / move / destroy and Union / UnionDisjointStates / Intersection / RemoveUnreachableStates / RemoveUselessStates / GetTopDownAut / ReindexStates over bdd-bu and bdd-td automata that share transition tables. Oracle after every step: every live handle is dumped, read by the independent Timbuk reader and must denote its model language (exact); results equal model union / product / trimmed language; no useless state after RemoveUselessStates.",
     ["state numbers of all live BDD automata of one encoding are treated as one name space when the client establishes the 'disjoint state sets' precondition of UnionDisjointStates (automata sharing a table see each other's rules; see DESIGN.md section 6)"], Q),
